@@ -42,6 +42,7 @@ type FOConfig struct {
 	FailedUpdateTTLNs int64 `json:"failed_update_ttl_ns,omitempty"` // 0 default (20s), -1 disabled
 	UpdateTTLNs       int64 `json:"update_ttl_ns,omitempty"`        // 0 default (1m)
 	Logger            bool  `json:"logger,omitempty"`
+	LogMask           int   `json:"log_mask,omitempty"` // shape of the logger, see shapeLogger
 	Stats             bool  `json:"stats,omitempty"`
 	ObserveMutability bool  `json:"observe_mutability,omitempty"`
 }
@@ -72,9 +73,12 @@ type FOOp struct {
 	BuildFail bool `json:"build_fail,omitempty"`
 	// BuildPanic: the builder panics (only when it runs in the caller's own goroutine; a panic in the
 	// library's background goroutine would be an unrecovered crash of the user's process).
-	BuildPanic   bool      `json:"build_panic,omitempty"`
-	BuildSleepNs int64     `json:"build_sleep_ns,omitempty"`
-	BuildTTLs    []TTLCall `json:"build_ttls,omitempty"`
+	BuildPanic   bool  `json:"build_panic,omitempty"`
+	BuildSleepNs int64 `json:"build_sleep_ns,omitempty"`
+	// BuildEqual: the builder returns a value equal to the pre-loaded one (the source has not changed);
+	// only used by oracles that tell writes apart by position, not by value.
+	BuildEqual bool      `json:"build_equal,omitempty"`
+	BuildTTLs  []TTLCall `json:"build_ttls,omitempty"`
 
 	// Caller behaviour after Get returned.
 	Cancel    string `json:"cancel,omitempty"`     // "", before (ctx already cancelled), after (cancel after return), deadline (deadline passes later)
@@ -94,7 +98,9 @@ type FOFaults struct {
 
 // FOScenario is the Failover engine's part of a scenario.
 type FOScenario struct {
-	API          string   `json:"api"`     // failover | failoverOf
+	API string `json:"api"` // failover | failoverOf
+	// ValRep: representation of values handed to the untyped API ("" token struct, slice, map, box, ptr).
+	ValRep       string   `json:"val_rep,omitempty"`
 	Backend      string   `json:"backend"` // sharded | syncmap | shardedOf
 	Cfg          FOConfig `json:"cfg"`
 	BackendTTLNs int64    `json:"backend_ttl_ns,omitempty"` // 0 default 5m
@@ -214,17 +220,22 @@ type foAPI interface {
 	HasErrors() bool
 }
 
-type plainAPI struct{ f *cache.Failover }
+type plainAPI struct {
+	f   *cache.Failover
+	rep string
+}
 
 func (a plainAPI) Get(ctx context.Context, key []byte, build func(ctx context.Context) (Tok, error)) (interface{}, error) {
-	return a.f.Get(ctx, key, func(ctx context.Context) (interface{}, error) {
+	v, err := a.f.Get(ctx, key, func(ctx context.Context) (interface{}, error) {
 		t, err := build(ctx)
 		if err != nil {
 			return nil, err
 		}
 
-		return t, nil
+		return wrapVal(a.rep, t), nil
 	})
+
+	return unwrapVal(v), err
 }
 func (a plainAPI) KeyLockNames() []string { return a.f.VerifKeyLockNames() }
 func (a plainAPI) Stop()                  { a.f.VerifStop() }
@@ -413,11 +424,23 @@ type beWrap struct {
 }
 
 func (w beWrap) Read(ctx context.Context, k []byte) (interface{}, error) {
-	return w.r.beRead(ctx, k, func() (interface{}, error) { return w.real.Read(ctx, k) })
+	var raw interface{}
+
+	v, err := w.r.beRead(ctx, k, func() (interface{}, error) {
+		x, err := w.real.Read(ctx, k)
+		raw = x
+
+		return unwrapVal(x), err
+	})
+	if err == nil && raw != nil {
+		return raw, nil // the library gets the stored representation, the call log the token
+	}
+
+	return v, err
 }
 
 func (w beWrap) Write(ctx context.Context, k []byte, v interface{}) error {
-	return w.r.beWrite(ctx, k, v, func() error { return w.real.Write(ctx, k, v) })
+	return w.r.beWrite(ctx, k, unwrapVal(v), func() error { return w.real.Write(ctx, k, v) })
 }
 
 type beWrapOf struct {
@@ -511,7 +534,7 @@ func (r *foRun) construct() {
 	)
 
 	if sc.Cfg.Logger {
-		logger = simLogger{r: r}
+		logger = shapeLogger(simLogger{r: r}, sc.Cfg.LogMask)
 	}
 
 	if sc.Cfg.Stats {
@@ -525,10 +548,13 @@ func (r *foRun) construct() {
 		m := cache.NewSyncMap(bcfg.Use)
 		r.be = foBackend{
 			plain: m, stop: m.VerifStop, len: m.Len, expAl: m.ExpireAll,
-			read:  func(ctx context.Context, k []byte) (interface{}, error) { return m.Read(ctx, k) },
-			write: func(ctx context.Context, k []byte, v Tok) error { return m.Write(ctx, k, v) },
+			read: func(ctx context.Context, k []byte) (interface{}, error) {
+				v, err := m.Read(ctx, k)
+				return unwrapVal(v), err
+			},
+			write: func(ctx context.Context, k []byte, v Tok) error { return m.Write(ctx, k, wrapVal(sc.ValRep, v)) },
 			walk: func(fn func(key []byte, v interface{}, exp time.Time)) {
-				_, _ = m.Walk(func(en cache.Entry) error { fn(en.Key(), en.Value(), en.ExpireAt()); return nil })
+				_, _ = m.Walk(func(en cache.Entry) error { fn(en.Key(), unwrapVal(en.Value()), en.ExpireAt()); return nil })
 			},
 		}
 	case "shardedOf":
@@ -546,20 +572,29 @@ func (r *foRun) construct() {
 		m := cache.NewShardedMapOf[interface{}](bcfg.Use)
 		r.be = foBackend{
 			plain: m, stop: m.VerifStop, len: m.Len, expAl: m.ExpireAll,
-			read:  func(ctx context.Context, k []byte) (interface{}, error) { return m.Read(ctx, k) },
-			write: func(ctx context.Context, k []byte, v Tok) error { return m.Write(ctx, k, v) },
+			read: func(ctx context.Context, k []byte) (interface{}, error) {
+				v, err := m.Read(ctx, k)
+				return unwrapVal(v), err
+			},
+			write: func(ctx context.Context, k []byte, v Tok) error { return m.Write(ctx, k, wrapVal(sc.ValRep, v)) },
 			walk: func(fn func(key []byte, v interface{}, exp time.Time)) {
-				_, _ = m.Walk(func(en cache.EntryOf[interface{}]) error { fn(en.Key(), en.Value(), en.ExpireAt()); return nil })
+				_, _ = m.Walk(func(en cache.EntryOf[interface{}]) error {
+					fn(en.Key(), unwrapVal(en.Value()), en.ExpireAt())
+					return nil
+				})
 			},
 		}
 	default:
 		m := cache.NewShardedMap(bcfg.Use)
 		r.be = foBackend{
 			plain: m, stop: m.VerifStop, len: m.Len, expAl: m.ExpireAll,
-			read:  func(ctx context.Context, k []byte) (interface{}, error) { return m.Read(ctx, k) },
-			write: func(ctx context.Context, k []byte, v Tok) error { return m.Write(ctx, k, v) },
+			read: func(ctx context.Context, k []byte) (interface{}, error) {
+				v, err := m.Read(ctx, k)
+				return unwrapVal(v), err
+			},
+			write: func(ctx context.Context, k []byte, v Tok) error { return m.Write(ctx, k, wrapVal(sc.ValRep, v)) },
 			walk: func(fn func(key []byte, v interface{}, exp time.Time)) {
-				_, _ = m.Walk(func(en cache.Entry) error { fn(en.Key(), en.Value(), en.ExpireAt()); return nil })
+				_, _ = m.Walk(func(en cache.Entry) error { fn(en.Key(), unwrapVal(en.Value()), en.ExpireAt()); return nil })
 			},
 		}
 	}
@@ -601,7 +636,7 @@ func (r *foRun) construct() {
 				SyncUpdate: sc.Cfg.SyncUpdate, SyncRead: sc.Cfg.SyncRead, MaxStaleness: dur(sc.Cfg.MaxStalenessNs),
 				FailHard: sc.Cfg.FailHard, Logger: logger, Stats: stats,
 			}.Use)
-			r.api = plainAPI{f}
+			r.api = plainAPI{f: f, rep: sc.ValRep}
 		}
 
 		e.cleanup = append(e.cleanup, r.stopAPI)
@@ -633,7 +668,7 @@ func (r *foRun) construct() {
 			SyncUpdate: sc.Cfg.SyncUpdate, SyncRead: sc.Cfg.SyncRead, MaxStaleness: dur(sc.Cfg.MaxStalenessNs),
 			FailHard: sc.Cfg.FailHard, Logger: logger, Stats: stats, ObserveMutability: sc.Cfg.ObserveMutability && stats != nil,
 		}.Use)
-		r.api = plainAPI{f}
+		r.api = plainAPI{f: f, rep: sc.ValRep}
 		e.cleanup = append(e.cleanup, r.stopAPI)
 	}
 }
@@ -933,6 +968,10 @@ func (r *foRun) builder(rec *opRec, ctx context.Context) (Tok, error) {
 	}
 
 	b.tok = Tok{K: rec.key, ID: "b" + rec.id()[1:]}
+	if op.BuildEqual {
+		b.tok = Tok{K: rec.key, ID: "pre"}
+	}
+
 	e.logf("build exit %s key=%q -> %v", rec.id(), rec.key, b.tok)
 
 	return b.tok, nil
